@@ -85,6 +85,10 @@ unsafe fn reduce_bbc(s_lo: __m256i, s_hi: __m256i, mask_h2: __m256i, h2: u64, s2
 /// `x.len() >= 8 * ell`, `y.len() >= 8 * ell`, `res.len() >= 4`.
 #[target_feature(enable = "avx2")]
 pub(crate) unsafe fn vec_mat1col_product_bbc_avx2(meta: &BbcMeta<Primes30>, ell: usize, res: &mut [u64], x: &[u32], y: &[u32]) {
+    // Raw-pointer loop below: `ell` vectors of `x` and `y`, one vector stored to `res`.
+    assert!(res.len() >= 4, "vec_mat1col_product_bbc_avx2: res.len()={} < 4", res.len());
+    assert!(x.len() >= 8 * ell, "vec_mat1col_product_bbc_avx2: x.len()={} < 8*ell={}", x.len(), 8 * ell);
+    assert!(y.len() >= 8 * ell, "vec_mat1col_product_bbc_avx2: y.len()={} < 8*ell={}", y.len(), 8 * ell);
     unsafe {
         let mask32 = _mm256_set1_epi64x(u32::MAX as i64);
         let mut s1 = _mm256_setzero_si256(); // accumulator for low 32-bit partial products
@@ -154,6 +158,10 @@ pub(crate) unsafe fn vec_mat1col_product_x2_bbc_avx2(
     x: &[u32],
     y: &[u32],
 ) {
+    // Raw-pointer loop below: `2 * ell` vectors of `x` and `y`, two vectors stored to `res`.
+    assert!(res.len() >= 8, "vec_mat1col_product_x2_bbc_avx2: res.len()={} < 8", res.len());
+    assert!(x.len() >= 16 * ell, "vec_mat1col_product_x2_bbc_avx2: x.len()={} < 16*ell={}", x.len(), 16 * ell);
+    assert!(y.len() >= 16 * ell, "vec_mat1col_product_x2_bbc_avx2: y.len()={} < 16*ell={}", y.len(), 16 * ell);
     unsafe {
         let mask32 = _mm256_set1_epi64x(u32::MAX as i64);
         // Pair A accumulators
@@ -240,6 +248,10 @@ pub(crate) unsafe fn vec_mat2cols_product_x2_bbc_avx2(
     x: &[u32],
     y: &[u32],
 ) {
+    // Raw-pointer loop below: `2 * ell` vectors of `x`, `4 * ell` of `y`, four vectors stored to `res`.
+    assert!(res.len() >= 16, "vec_mat2cols_product_x2_bbc_avx2: res.len()={} < 16", res.len());
+    assert!(x.len() >= 16 * ell, "vec_mat2cols_product_x2_bbc_avx2: x.len()={} < 16*ell={}", x.len(), 16 * ell);
+    assert!(y.len() >= 32 * ell, "vec_mat2cols_product_x2_bbc_avx2: y.len()={} < 32*ell={}", y.len(), 32 * ell);
     unsafe {
         let mask32 = _mm256_set1_epi64x(u32::MAX as i64);
 
